@@ -22,7 +22,7 @@ import (
 )
 
 // actual contents (what the command under test "produced")
-var contents = []string{"", "x\n", "x y\n", "x", "-- m --\n", "a\n-- m --\n", ">q\n", "-- m --", "\n", "x\r\n", "a\n-- m --"}
+var contents = []string{"", "x\n", "x y\n", "x", "-- m --\n", "a\n-- m --\n", ">q\n", "-- m --", "\n", "x\r\n", "a\n-- m --", "-- x\n", "y\n-- --\n-- a -- b\n"}
 
 type cmpLine struct {
 	Kind    string `json:"kind"` // stdout | stderr | file | outside | cmpenv | neg | respell
@@ -34,6 +34,9 @@ type scase struct {
 	Lines []cmpLine `json:"lines"`
 	// Second: a second script run by the same RunT call (batch)
 	Second []cmpLine `json:"second,omitempty"`
+	// Dup: the archive holds an earlier entry with the same name as the first
+	// golden (legal unless RequireUniqueNames); the later copy is the one on disk
+	Dup bool `json:"dup,omitempty"`
 }
 
 func (c scase) String() string {
@@ -41,6 +44,9 @@ func (c scase) String() string {
 		return scase{Lines: c.Lines}.String() + " || " + scase{Lines: c.Second}.String()
 	}
 	var p []string
+	if c.Dup {
+		p = append(p, "duplicate-entry-name")
+	}
 	for _, l := range c.Lines {
 		m := "mismatch"
 		if l.Match {
@@ -75,6 +81,9 @@ func build(c scase) (string, bool) {
 	var files []txtar.File
 	files = append(files, txtar.File{Name: "pre", Data: []byte("untouched pre\n")})
 	script.WriteString("# generated\n")
+	if c.Dup {
+		files = append(files, txtar.File{Name: "g0", Data: []byte("SHADOWED\n")})
+	}
 	for i, l := range c.Lines {
 		g := fmt.Sprintf("g%d", i)
 		golden := oldGolden
@@ -263,6 +272,14 @@ func verify(dir, file, text string, c scase, res *tsh.Result, st *counters) stri
 			return fmt.Sprintf("entry %d is named %q after the run, was %q (order/names must not change)", i, a.Name, b.Name)
 		}
 		want, upd := wantEntry[b.Name]
+		if c.Dup && i == 1 {
+			// the shadowed earlier copy of g0: which copies of a repeated name
+			// receive the update is not specified beyond the effective (last) one
+			if string(a.Data) != want && !bytes.Equal(a.Data, b.Data) {
+				return fmt.Sprintf("the shadowed first copy of entry %q holds %q, neither its old content nor the actual content", b.Name, a.Data)
+			}
+			continue
+		}
 		if upd && !wantFail {
 			if string(a.Data) != want {
 				return fmt.Sprintf("golden entry %q holds %q after the run, want %q (actual content %q)", b.Name, a.Data, want, updates[b.Name])
@@ -432,6 +449,20 @@ func realMain() {
 			cases = append(cases, scase{Lines: []cmpLine{a}, Second: []cmpLine{b}})
 		}
 	}
+	// an archive that repeats the name of the first golden entry
+	var dupLines []cmpLine
+	for _, k := range []string{"stdout", "file", "respell", "neg", "outside"} {
+		for _, ci := range []int{1, 3, 4} {
+			dupLines = append(dupLines, cmpLine{k, ci, false})
+		}
+		dupLines = append(dupLines, cmpLine{k, 1, true})
+	}
+	for _, a := range dupLines {
+		cases = append(cases, scase{Lines: []cmpLine{a}, Dup: true})
+		for _, b := range dupLines {
+			cases = append(cases, scase{Lines: []cmpLine{a, b}, Dup: true})
+		}
+	}
 	st := &counters{}
 	var done, built int64
 	var next int64 = -1
@@ -470,7 +501,7 @@ func realMain() {
 	wg.Wait()
 	r.Set("evaluations", done)
 	r.Set("distinct_nontrivial", st.updated)
-	r.Set("rule", "every script with 1 or 2 comparison lines (thorough: 3 over a reduced alphabet) from 7 kinds (cmp stdout / stderr / file against an archive golden, the same golden through another path spelling, negated cmp, cmpenv, cmp against a file outside the archive) x 11 actual contents (empty, no final newline, marker lines, quoted-looking, CRLF, unquotable) x golden matching or not; untouched entries before, between and after. non-trivial = golden entries actually rewritten and verified, counted")
+	r.Set("rule", "every script with 1 or 2 comparison lines (thorough: 3 over a reduced alphabet) from 7 kinds (cmp stdout / stderr / file against an archive golden, the same golden through another path spelling, negated cmp, cmpenv, cmp against a file outside the archive) x 13 actual contents (empty, no final newline, marker lines, lines that start like a marker but are none, quoted-looking, CRLF, unquotable) x golden matching or not; untouched entries before, between and after; batches of two scripts in one RunT call; archives that repeat the first golden's name. non-trivial = golden entries actually rewritten and verified, counted")
 	r.Set("golden_entries_rewritten_and_verified", st.updated)
 	r.Set("of_which_quoted", st.quoted)
 	r.Set("entries_verified_untouched", st.untouched)
